@@ -911,6 +911,26 @@ Proof.
   destruct (b0 =? S_CONNECT); [|reflexivity]. split7 r; reflexivity.
 Qed.
 
+(* ------------------------------------------------------------------ the sniffer ignores the remaining length *)
+(* a complete CONNECT frame whose remaining length is < 7 stays undecided (the real combined server
+   then waits for more bytes / its version timeout), while both codecs reject it at once; and the
+   sniffer reads the protocol name across the frame boundary, out of the bytes that follow *)
+Lemma sniff_short_frame_undecided vi rl body :
+  is_varint vi rl -> (length body < 7)%nat -> sniff (S_CONNECT :: vi ++ body) = Ok None.
+Proof.
+  intros Hvi Hl. apply sniff_none_iff. right. exists S_CONNECT, (vi ++ body). split; [reflexivity|].
+  right. exists rl, body. split; [apply is_varint_app; exact Hvi|]. split; [reflexivity | exact Hl].
+Qed.
+
+Lemma sniff_ignores_remaining_length :
+  sniff [16; 0] = Ok None /\
+  fst (fst (fst (CodecV5.decode_step 0 0 false CodecV5.FrameHeader [16; 0]))) = Err DE_InvalidLength /\
+  fst (fst (CodecV3.decode_step 0 0 CodecV3.FrameHeader [16; 0])) = Err DE_InvalidLength /\
+  sniff ([16; 0] ++ [0; 4; 77; 81; 84; 84; 4]) = Ok (Some 4) /\
+  fst (fst (CodecV3.decode_step 0 0 CodecV3.FrameHeader ([16; 0] ++ [0; 4; 77; 81; 84; 84; 4])))
+    = Err DE_InvalidLength.
+Proof. repeat split; vm_compute; reflexivity. Qed.
+
 (* ------------------------------------------------------------------ audit *)
 Print Assumptions sniff_char.
 Print Assumptions sniff_total.
@@ -937,3 +957,5 @@ Print Assumptions sniff_agrees_with_decoder_frame.
 Print Assumptions sniff_agrees_with_decoder_frame_v3.
 Print Assumptions sniff_agrees_with_decode_step_v5.
 Print Assumptions sniff_agrees_with_decode_step_v3.
+Print Assumptions sniff_short_frame_undecided.
+Print Assumptions sniff_ignores_remaining_length.
